@@ -1,14 +1,22 @@
 (** Correspondence + property checker for C08 (a transaction pays its declared fee on success, only
     the base fee on failure).
 
-    A case is a history on one real chain: the observed starting state, then for every signed
-    transaction the configuration in force, the transaction, and what the node did with it (CheckTx
-    admission, execution result when it was put in a block, every balance / sequence / fee allowance
-    afterwards), interleaved with the harness' own funding and allowance changes.
-      corr:*  the model (Fees/TxFees.v) run from the model's own previous state disagrees with the node
-      prop:*  the property's closed-form statement evaluated on the node's own observations fails *)
+    A case is a history on one real chain: the observed starting state (fee schedule and msgfees params
+    as read from the COMMITTED store, balances, sequences, fee allowances), then steps:
+      HBlock   1-5 signed transactions offered to CheckTx one after the other (the node's check state
+               keeps the ante effects of the admitted ones) and then executed in ONE block, with what
+               the node did with each (admission, result code 0 or not, GasUsed) and the state observed
+               after the block;
+      HGov     a governance proposal (messages of x/msgfees and bank sends of the gov module account)
+               reaching the end of its voting period in an otherwise empty block: passed or not, and
+               the state afterwards;
+      HSetCfg / HSetBal / HSetAllow   the harness' own direct writes.
+      corr:*  the model (Fees/TxFees.v + Fees/TxBlocks.v), run from the model's own previous state,
+              disagrees with the node
+      prop:*  the property's closed-form statement evaluated on the node's own observations fails; the
+              fee schedule and params it uses are the ones OBSERVED in the committed store before the step *)
 From Coq Require Import ZArith NArith List String Bool.
-From PV Require Export Fees.TxFees Corr.CorrBase.
+From PV Require Export Fees.TxFees Fees.TxBlocks Corr.CorrBase.
 Import ListNotations.
 Open Scope string_scope.
 Open Scope list_scope.
@@ -18,17 +26,22 @@ Definition bal_entries := list (acct * denom * Z).          (* absent = 0 *)
 Definition seq_entries := list (acct * Z).
 Definition allow_entries := list (acct * acct * allowance). (* absent = no grant *)
 
-Record obs := { o_admitted : bool; o_ok : bool;
+Record obs := { o_cfg : config;           (* schedule and params as stored after the step *)
                 o_bal : bal_entries; o_seq : seq_entries; o_allow : allow_entries }.
 
+(* per offered transaction: admitted by CheckTx; result code 0 in the block *)
+Record txobs := { x_admitted : bool; x_ok : bool }.
+
 Inductive hstep :=
-| HTx (cfg : config) (t : tx) (o : obs)
+| HBlock (max_gas : Z) (txs : list (btx * txobs)) (o : obs)
+| HGov (vote_yes : bool) (ms : list gov_msg) (passed : bool) (o : obs)
+| HSetCfg (cfg : config)
 | HSetBal (a : acct) (d : denom) (v : Z)
 | HSetAllow (g p : acct) (v : allowance).
 
 Inductive case :=
-| CHist (accts : list acct) (denoms : list denom) (pairs : list (acct * acct))
-        (b0 : bal_entries) (s0 : seq_entries) (a0 : allow_entries) (steps : list hstep).
+| CHist (accts : list acct) (denoms : list denom) (pairs : list (acct * acct)) (types : list mtype)
+        (cfg0 : config) (b0 : bal_entries) (s0 : seq_entries) (a0 : allow_entries) (steps : list hstep).
 
 (** observed state as a model state *)
 Definition sheet_of (l : bal_entries) : sheet :=
@@ -47,7 +60,8 @@ Definition mk_state (b : bal_entries) (s : seq_entries) (a : allow_entries) : st
   {| bal := sheet_of b; seqn := seq_of s; allow := allow_of a |}.
 
 (** comparison of states on the case's universe *)
-Record universe := { u_accts : list acct; u_denoms : list denom; u_pairs : list (acct * acct) }.
+Record universe := { u_accts : list acct; u_denoms : list denom; u_pairs : list (acct * acct);
+                     u_types : list mtype }.
 
 Definition allow_eqb (ds : list denom) (x y : allowance) : bool :=
   match x, y with
@@ -91,6 +105,13 @@ Definition expected_allow (u : universe) (t : tx) (pre : state) (charged : coins
   then spent_allow (u_denoms u) (allow pre g p) charged
   else allow pre g p.
 
+(* every custom assessed fee is in usd or in the conversion denom of the params *)
+Definition convertibleb (cfg : config) (rs : list routed) : bool :=
+  forallb (fun r => match r_custom r with
+                    | Some cu => match convert cfg (cu_coin cu) with Some _ => true | None => false end
+                    | None => true
+                    end) rs.
+
 Definition check_prop (u : universe) (cfg : config) (t : tx) (pre post : state) (admitted ok : bool) : list string :=
   let base := base_fee cfg (t_gas t) in
   (* the fee amounts themselves are nonnegative, so a sum exceeding the declared fee in any denom of
@@ -108,6 +129,8 @@ Definition check_prop (u : universe) (cfg : config) (t : tx) (pre post : state) 
                            <=? amount_of (t_fee t) d) (u_denoms u) || N.eqb (fee_source t) collector)
         "prop:payer debited more than the declared fee" ++
     tag (coveredb u cfg t (routed_all t)) "prop:succeeded although the additional fees are not covered by the declared fee" ++
+    tag (convertibleb cfg (routed_all t))
+        "prop:succeeded although a custom fee is in a denom that is neither usd nor the conversion denom of the params" ++
     tag (forallb (fun d => bal post (fee_source t) d - bal pre (fee_source t) d
                            - share cfg (routed_all t) (fee_source t) d - msg_net (routed_all t) (fee_source t) d
                            - ind (N.eqb (fee_source t) collector) (amount_of (t_fee t) d - shares_total cfg (routed_all t) d)
@@ -139,44 +162,188 @@ Definition check_prop (u : universe) (cfg : config) (t : tx) (pre post : state) 
                               (expected_allow u t pre base (fst gp) (snd gp))) (u_pairs u))
         "prop:failed transaction changed a fee allowance by other than the base fee".
 
+(** ** Blocks of several transactions: the block's observed effect must be the sum of per-transaction
+    charges.  Between the transactions of one block nothing can be observed, so a failed transaction
+    that is not the block's first may have been refused by the ante handler on the running state
+    (nothing changes, not even a sequence) or have failed later (exactly the base fee, sequences
+    advance): the checker accepts the observation iff SOME such classification explains the state after
+    the block exactly (balances of every account in every denom, sequences, fee allowances). *)
+Inductive cls := KOut | KOk | KCharged | KNothing.
+
+Definition is_in_block (bx : btx * txobs) : bool := x_admitted (snd bx) || b_forced (fst bx).
+
+Fixpoint assignments (txs : list (btx * txobs)) (first : bool) : list (list cls) :=
+  match txs with
+  | [] => [[]]
+  | bx :: r =>
+      let inb := is_in_block bx in
+      let opts := if negb inb then [KOut]
+                  else if x_ok (snd bx) then [KOk]
+                  else if first && negb (b_forced (fst bx)) then [KCharged]
+                  else [KCharged; KNothing] in
+      flat_map (fun k => map (cons k) (assignments r (first && negb inb))) opts
+  end.
+
+Definition bump_if (s : state) (t : tx) : acct -> Z :=
+  fun a => seqn s a + ind (existsb (N.eqb a) (t_signers t)) 1.
+
+Definition apply_cls (u : universe) (cfg : config) (s : state) (t : tx) (k : cls) : state :=
+  match k with
+  | KOk => {| bal := fun a d => bal s a d + spec_ok_delta cfg t a d;
+              seqn := bump_if s t;
+              allow := expected_allow u t s (t_fee t) |}
+  | KCharged => {| bal := fun a d => bal s a d + spec_fail_delta cfg t a d;
+                   seqn := bump_if s t;
+                   allow := expected_allow u t s (base_fee cfg (t_gas t)) |}
+  | _ => s
+  end.
+
+Fixpoint expect (u : universe) (cfg : config) (s : state) (txs : list (btx * txobs)) (ks : list cls) : state :=
+  match txs, ks with
+  | bx :: r, k :: kr => expect u cfg (apply_cls u cfg s (b_tx (fst bx)) k) r kr
+  | _, _ => s
+  end.
+
+Definition state_agree (u : universe) (x y : state) : bool :=
+  bal_agree u (bal x) (bal y) && seq_agree u (seqn x) (seqn y) && allow_agree u (allow x) (allow y).
+
+Definition fee_eqb (x y : option fee_entry) : bool :=
+  match x, y with
+  | None, None => true
+  | Some a, Some b =>
+      N.eqb (fst (fe_coin a)) (fst (fe_coin b)) && (snd (fe_coin a) =? snd (fe_coin b)) &&
+      (fe_bips a =? fe_bips b) &&
+      match fe_recipient a, fe_recipient b with
+      | None, None => true
+      | Some p, Some q => N.eqb p q
+      | _, _ => false
+      end
+  | _, _ => false
+  end.
+
+Definition cfg_agree (u : universe) (x y : config) : bool :=
+  forallb (fun ty => fee_eqb (lookup_fee (schedule x) ty) (lookup_fee (schedule y) ty)) (u_types u) &&
+  N.eqb (fst (floor_price x)) (fst (floor_price y)) && (snd (floor_price x) =? snd (floor_price y)) &&
+  N.eqb (conv_denom x) (conv_denom y) && N.eqb (usd_denom x) (usd_denom y) &&
+  (nhash_per_mil x =? nhash_per_mil y).
+
+(* static clauses per transaction of a block *)
+Definition check_static (u : universe) (cfg : config) (bx : btx * txobs) : list string :=
+  let t := b_tx (fst bx) in
+  tag (covered_preb u cfg t (routed_top t) || negb (x_admitted (snd bx))) "prop:uncovered fee admitted to the mempool" ++
+  if x_ok (snd bx) && is_in_block bx then
+    tag (b_forced (fst bx) || forallb (fun d => amount_of (base_fee cfg (t_gas t)) d <=? amount_of (t_fee t) d) (u_denoms u))
+        "prop:base fee exceeds the declared fee" ++
+    tag (coveredb u cfg t (routed_all t)) "prop:succeeded although the additional fees are not covered by the declared fee" ++
+    tag (convertibleb cfg (routed_all t))
+        "prop:succeeded although a custom fee is in a denom that is neither usd nor the conversion denom of the params"
+  else [].
+
+Definition check_block_prop (u : universe) (cfg : config) (pre post : state) (txs : list (btx * txobs)) : list string :=
+  flat_map (check_static u cfg) txs ++
+  tag (existsb (fun ks => state_agree u (expect u cfg pre txs ks) post) (assignments txs true))
+      "prop:state after the block is not the sum of the per-transaction charges (declared fee with its split on success, base fee on failure, nothing when not executed) under any classification of its failed transactions" ++
+  tag (forallb (fun d => zsum (fun a => bal post a d - bal pre a d) (u_accts u) =? 0) (u_denoms u))
+      "prop:coins lost or created in the block".
+
 (** ** One history *)
 Definition result_ok (r : result) : bool := match r with ROk => true | _ => false end.
 Definition result_admitted (r : result) : bool := match r with RRejected => false | _ => true end.
 
-Definition check_tx_step (u : universe) (ms : state) (pre : state) (cfg : config) (t : tx) (o : obs)
-  : state * state * list string :=
-  let post := mk_state (o_bal o) (o_seq o) (o_allow o) in
-  let '(ms', r) := step ms (OTx cfg t) in
-  (ms', post,
-   tag (Bool.eqb (result_admitted r) (o_admitted o)) "corr:admission" ++
-   tag (Bool.eqb (result_ok r) (o_ok o)) "corr:success/failure" ++
-   tag (match r with RAnteFail => false | _ => true end) "corr:model says the ante handler fails in the block" ++
-   tag (bal_agree u (bal ms') (bal post)) "corr:balances" ++
-   tag (seq_agree u (seqn ms') (seqn post)) "corr:sequences" ++
-   tag (allow_agree u (allow ms') (allow post)) "corr:fee allowances" ++
-   check_prop u cfg t pre post (o_admitted o) (o_ok o)).
+Definition mk_chain (o : obs) : chain :=
+  {| ch_cfg := o_cfg o; ch_st := mk_state (o_bal o) (o_seq o) (o_allow o) |}.
 
-Fixpoint check_hist (u : universe) (ms pre : state) (i : N) (steps : list hstep) : list string :=
+Definition chain_corr (u : universe) (m : chain) (post : chain) : list string :=
+  tag (cfg_agree u (ch_cfg m) (ch_cfg post)) "corr:fee schedule and params" ++
+  tag (bal_agree u (bal (ch_st m)) (bal (ch_st post))) "corr:balances" ++
+  tag (seq_agree u (seqn (ch_st m)) (seqn (ch_st post))) "corr:sequences" ++
+  tag (allow_agree u (allow (ch_st m)) (allow (ch_st post))) "corr:fee allowances".
+
+Fixpoint bools_eqb (x y : list bool) : bool :=
+  match x, y with
+  | [], [] => true
+  | a :: r, b :: q => Bool.eqb a b && bools_eqb r q
+  | _, _ => false
+  end.
+
+Definition check_block_step (u : universe) (mc pre : chain) (mg : Z) (txs : list (btx * txobs)) (o : obs)
+  : chain * chain * list string :=
+  let post := mk_chain o in
+  let bs := map fst txs in
+  let adm := mempool (ch_cfg mc) (ch_st mc) bs in
+  let '(mc', rs) := run_block mc mg bs in
+  let inb := map is_in_block txs in
+  (mc', post,
+   tag (bools_eqb adm (map (fun bx => x_admitted (snd bx)) txs)) "corr:admission" ++
+   tag (bools_eqb (map result_ok rs) (map (fun bx => x_ok (snd bx) && is_in_block bx) txs)) "corr:success/failure" ++
+   chain_corr u mc' post ++
+   tag (cfg_agree u (ch_cfg pre) (ch_cfg post)) "prop:a block of transactions changed the fee schedule or the msgfees params" ++
+   match txs with
+   | [(b, x)] =>
+       if b_forced b then check_block_prop u (ch_cfg pre) (ch_st pre) (ch_st post) txs
+       else
+         tag (match rs with [RAnteFail] => false | _ => true end) "corr:model says the ante handler fails in the block" ++
+         check_prop u (ch_cfg pre) (b_tx b) (ch_st pre) (ch_st post) (x_admitted x) (x_ok x)
+   | _ => check_block_prop u (ch_cfg pre) (ch_st pre) (ch_st post) txs
+   end).
+
+(* what the bank sends of a passed proposal moved; nothing else may move: messages executed by
+   governance are not part of any transaction and pay no message fee *)
+Definition gov_bal_ok (u : universe) (pre post : state) (ms : list gov_msg) : bool :=
+  forallb (fun a => forallb (fun d => bal post a d - bal pre a d
+                                      =? credit_of (gov_moves ms) a d - debit_of (gov_moves ms) a d) (u_denoms u))
+          (u_accts u).
+
+Definition check_gov_step (u : universe) (mc pre : chain) (v : bool) (ms : list gov_msg) (passed : bool) (o : obs)
+  : chain * chain * list string :=
+  let post := mk_chain o in
+  let '(mc', ok) := gov_exec mc v ms in
+  (mc', post,
+   tag (Bool.eqb ok passed) "corr:proposal passed/failed" ++
+   chain_corr u mc' post ++
+   (if passed then
+      tag (gov_bal_ok u (ch_st pre) (ch_st post) ms)
+          "prop:a passed proposal moved coins other than its own bank sends (messages executed by governance pay no message fee)"
+    else
+      tag (cfg_agree u (ch_cfg pre) (ch_cfg post))
+          "prop:a proposal that failed or was rejected changed the fee schedule or the msgfees params" ++
+      tag (bal_agree u (bal (ch_st pre)) (bal (ch_st post)))
+          "prop:a proposal that failed or was rejected moved coins") ++
+   tag (seq_agree u (seqn (ch_st pre)) (seqn (ch_st post))) "prop:a proposal changed a sequence number" ++
+   tag (allow_agree u (allow (ch_st pre)) (allow (ch_st post))) "prop:a proposal changed a fee allowance").
+
+Definition at_step (i : N) (e : list string) : list string :=
+  map (fun s => (s ++ " @step " ++ N_to_string i)%string) e.
+
+Fixpoint check_hist (u : universe) (mc pre : chain) (i : N) (steps : list hstep) : list string :=
   match steps with
   | [] => []
-  | HTx cfg t o :: rest =>
-      let '(ms', post, errs) := check_tx_step u ms pre cfg t o in
+  | HBlock mg txs o :: rest =>
+      let '(mc', post, errs) := check_block_step u mc pre mg txs o in
       match errs with
-      | [] => check_hist u ms' post (N.succ i) rest
-      | e => map (fun s => (s ++ " @step " ++ N_to_string i)%string) e
+      | [] => check_hist u mc' post (N.succ i) rest
+      | e => at_step i e
       end
+  | HGov v ms passed o :: rest =>
+      let '(mc', post, errs) := check_gov_step u mc pre v ms passed o in
+      match errs with
+      | [] => check_hist u mc' post (N.succ i) rest
+      | e => at_step i e
+      end
+  | HSetCfg cfg :: rest =>
+      check_hist u (fst (bstep mc (OSetCfg cfg))) (fst (bstep pre (OSetCfg cfg))) (N.succ i) rest
   | HSetBal a d v :: rest =>
-      check_hist u (fst (step ms (OSetBal a d v))) (fst (step pre (OSetBal a d v))) (N.succ i) rest
+      check_hist u (fst (bstep mc (OSetBalance a d v))) (fst (bstep pre (OSetBalance a d v))) (N.succ i) rest
   | HSetAllow g p v :: rest =>
-      check_hist u (fst (step ms (OSetAllow g p v))) (fst (step pre (OSetAllow g p v))) (N.succ i) rest
+      check_hist u (fst (bstep mc (OSetAllowance g p v))) (fst (bstep pre (OSetAllowance g p v))) (N.succ i) rest
   end.
 
 Definition check (c : case) : list string :=
   match c with
-  | CHist accts denoms pairs b0 s0 a0 steps =>
-      let u := {| u_accts := accts; u_denoms := denoms; u_pairs := pairs |} in
-      let s := mk_state b0 s0 a0 in
-      check_hist u s s 0%N steps
+  | CHist accts denoms pairs types cfg0 b0 s0 a0 steps =>
+      let u := {| u_accts := accts; u_denoms := denoms; u_pairs := pairs; u_types := types |} in
+      let c0 := {| ch_cfg := cfg0; ch_st := mk_state b0 s0 a0 |} in
+      check_hist u c0 c0 0%N steps
   end.
 
 Definition check_all := check_list check.
@@ -188,4 +355,6 @@ Definition Cu := Build_custom.
 Definition Rt := Build_routed.
 Definition Tm := Build_tmsg.
 Definition Tx := Build_tx.
+Definition Bt := Build_btx.
 Definition Ob := Build_obs.
+Definition Xo := Build_txobs.
